@@ -71,6 +71,16 @@ spec fn queued(b: GenericSocketBackend) -> Option<Map<PeerIdentity, ZmqFramedRea
     match b.fair_queue_inner { Some(m) => Some(m.inner.streams@), None => None }
 }
 
+/// C16: everything the socket held for peer `p` is gone - the table entry (write half) AND the queued read half - and
+/// nothing else has changed
+spec fn forgot_peer(b0: GenericSocketBackend, b1: GenericSocketBackend, p: PeerIdentity) -> bool {
+    &&& b1.peers@ == b0.peers@.remove(p)
+    &&& queued(b0) is None ==> queued(b1) is None
+    &&& queued(b0) is Some ==> queued(b1) == Some(queued(b0)->Some_0.remove(p))
+}
+spec fn untouched(b0: GenericSocketBackend, b1: GenericSocketBackend) -> bool {
+    b1.peers@ == b0.peers@ && queued(b1) == queued(b0)
+}
 impl GenericSocketBackend {
 // C01 / C04: a socket announces ITS OWN type: the backend is built with it and hands it out unchanged
 //@ item src/backend.rs :: impl GenericSocketBackend / fn with_options
@@ -268,13 +278,15 @@ impl DealerSocket {
 //@ ret r
 //@ spec
 //@|        ensures plain_received(old(self).fair_queue.log@, final(self).fair_queue.log@, r),
-//@|            final(self).backend.peers@ == old(self).backend.peers@,
+//@|            // C16: the peer whose failure this call reports is forgotten completely; otherwise nothing changes
+//@|            failed_item(final(self).fair_queue.log@.last()) ==> forgot_peer(*old(self).backend, *final(self).backend, final(self).fair_queue.log@.last()->Some_0.0),
+//@|            !failed_item(final(self).fair_queue.log@.last()) ==> untouched(*old(self).backend, *final(self).backend),
 //@ loop 1
 //@|            invariant
 //@|                self.fair_queue.log@.len() >= old(self).fair_queue.log@.len(),
 //@|                self.fair_queue.log@.subrange(0, old(self).fair_queue.log@.len() as int) =~= old(self).fair_queue.log@,
 //@|                forall|i: int| old(self).fair_queue.log@.len() <= i < self.fair_queue.log@.len() ==> skipped_item(#[trigger] self.fair_queue.log@[i]),
-//@|                self.backend.peers@ == old(self).backend.peers@,
+//@|                untouched(*old(self).backend, *self.backend),
 //@ await *
 //@|        forall|i: int| old(self).fair_queue.log@.len() <= i < self.fair_queue.log@.len() ==> skipped_item(#[trigger] self.fair_queue.log@[i])
 //@ end
@@ -298,14 +310,14 @@ impl PullSocket {
 //@ ret r
 //@ spec
 //@|        ensures plain_received(old(self).fair_queue.log@, final(self).fair_queue.log@, r),
-//@|            failed_item(final(self).fair_queue.log@.last()) ==> final(self).backend.peers@ == old(self).backend.peers@.remove(final(self).fair_queue.log@.last()->Some_0.0),
-//@|            !failed_item(final(self).fair_queue.log@.last()) ==> final(self).backend.peers@ == old(self).backend.peers@,
+//@|            failed_item(final(self).fair_queue.log@.last()) ==> forgot_peer(*old(self).backend, *final(self).backend, final(self).fair_queue.log@.last()->Some_0.0),
+//@|            !failed_item(final(self).fair_queue.log@.last()) ==> untouched(*old(self).backend, *final(self).backend),
 //@ loop 1
 //@|            invariant
 //@|                self.fair_queue.log@.len() >= old(self).fair_queue.log@.len(),
 //@|                self.fair_queue.log@.subrange(0, old(self).fair_queue.log@.len() as int) =~= old(self).fair_queue.log@,
 //@|                forall|i: int| old(self).fair_queue.log@.len() <= i < self.fair_queue.log@.len() ==> skipped_item(#[trigger] self.fair_queue.log@[i]),
-//@|                self.backend.peers@ == old(self).backend.peers@,
+//@|                untouched(*old(self).backend, *self.backend),
 //@ await *
 //@|        forall|i: int| old(self).fair_queue.log@.len() <= i < self.fair_queue.log@.len() ==> skipped_item(#[trigger] self.fair_queue.log@[i])
 //@ end
